@@ -336,6 +336,7 @@ type layoutOpt struct {
 	headerPad      int  // bytes between the TIFF header and IFD0
 	valuesFirst    bool // values of a directory before its sub-directories where possible
 	entryOrderVals bool // out-of-line values of a directory in entry order (camera style) rather than shuffled
+	ifd1           bool // IFD0 has a successor directory (thumbnail IFD) after everything else, as camera files do
 }
 
 // buildTIFF lays the record out in a forward layout and returns the bytes.
@@ -395,6 +396,7 @@ func buildTIFF(c *Ctx, r lrec, big bool, lo layoutOpt) []byte {
 		slot  int
 	}
 	var pending []block
+	nextSlot := map[string]int{}
 	emitDir := func(name string) {
 		ents := dirsByName[name]
 		dirPos[name] = len(out)
@@ -418,6 +420,7 @@ func buildTIFF(c *Ctx, r lrec, big bool, lo layoutOpt) []byte {
 				mine = append(mine, block{value: en.data, slot: slot})
 			}
 		}
+		nextSlot[name] = len(out)
 		out = append(out, 0, 0, 0, 0) // next IFD
 		if !lo.entryOrderVals {
 			c.Rng.Shuffle(len(mine), func(i, j int) { mine[i], mine[j] = mine[j], mine[i] })
@@ -445,6 +448,32 @@ func buildTIFF(c *Ctx, r lrec, big bool, lo layoutOpt) []byte {
 			copy(out[b.slot:], e.u32(uint32(len(out))))
 			out = append(out, b.value...)
 		}
+	}
+	if lo.ifd1 {
+		// IFD1: never parsed by the decoder (it only seeks to it); its entries name the same fields with other values
+		pad()
+		copy(out[nextSlot["ifd0"]:], e.u32(uint32(len(out))))
+		thumb := make([]byte, 8+c.Rng.Intn(40))
+		c.Rng.Read(thumb)
+		decoy := []byte("IFD1-decoy-make\x00")
+		d1 := len(out)
+		out = append(out, e.u16(4)...)
+		valAt := d1 + 2 + 4*12 + 4
+		out = append(out, e.u16(0x0103, 3)...)
+		out = append(out, e.u32(1)...)
+		out = append(out, append(e.u16(6), 0, 0)...)
+		out = append(out, e.u16(0x010f, 2)...)
+		out = append(out, e.u32(uint32(len(decoy)))...)
+		out = append(out, e.u32(uint32(valAt))...)
+		out = append(out, e.u16(0x0201, 4)...)
+		out = append(out, e.u32(1)...)
+		out = append(out, e.u32(uint32(valAt+len(decoy)))...)
+		out = append(out, e.u16(0x0202, 4)...)
+		out = append(out, e.u32(1)...)
+		out = append(out, e.u32(uint32(len(thumb)))...)
+		out = append(out, 0, 0, 0, 0)
+		out = append(out, decoy...)
+		out = append(out, thumb...)
 	}
 	for _, p := range patches {
 		copy(out[p.at:], e.u32(p.val()))
